@@ -175,7 +175,8 @@ template<class Ad> struct Runner {
     else if (k == "MoveAssign") { ok = call([&] { at(j) = std::move(at(i)); }, what); st[j] = 1; st[i] = 2; }
     else if (k == "SelfAssign") { ok = call([&] { S& r = at(i); copy_assign_impl<Ad, S>(at(i), r, 0); }, what); }
     else if (k == "ChainAssign") { ok = call([&] { copy_assign_impl<Ad, S>(at(i), copy_assign_impl<Ad, S>(at(j), at(c), 0), 0); }, what); st[i] = st[j] = 1; }
-    else if (k == "MergeRef") { ok = call([&] { Ad::merge(at(i), const_cast<const S&>(at(j))); }, what); }
+    else if (k == "MergeRef") { ok = call([&] { Ad::merge(at(i), at(j)); }, what); }                              // operand: non-const lvalue
+    else if (k == "MergeCRef") { ok = call([&] { Ad::merge(at(i), const_cast<const S&>(at(j))); }, what); }        // operand: const lvalue
     else if (k == "MergeMove") { ok = call([&] { Ad::merge_move(at(i), std::move(at(j))); }, what); st[j] = 2; }
     else if (k == "Serialize") { ok = call([&] { Ad::serialize(const_cast<const S&>(at(i))); }, what); }
     else if (k == "Reset") { int a = next_alloc++; ok = call([&] { Ad::reset(at(i), a); }, what); }
